@@ -219,6 +219,10 @@ pub struct ExecExtra {
     /// chunks the aliased seed still holds when they are scanned depends on the order of the
     /// writes, so fetch-set oracles do not apply to such a run.
     pub alias_output_as_seed: Option<&'static str>,
+    /// the existing output has a second hard link, `out.hl`
+    pub hard_link_output: bool,
+    /// the HTTP server serves this other archive from the n-th request on
+    pub switch_archive_after: Option<(usize, Vec<u8>)>,
 }
 
 /// `presented`: the bytes actually served / stored as the archive (a corrupted copy)
@@ -231,6 +235,9 @@ pub fn execute_with(f: &Fam, presented: Option<&[u8]>, extra: &ExecExtra) -> Obs
     let server = if f.http {
         let s = scen::serve(Arc::new(archive_bytes.clone()));
         s.lock().unwrap().script = extra.net_script.clone();
+        if let Some((n, other)) = &extra.switch_archive_after {
+            s.lock().unwrap().switch_after = Some((*n, Arc::new(other.clone())));
+        }
         Some(s)
     } else {
         None
@@ -247,12 +254,19 @@ pub fn execute_with(f: &Fam, presented: Option<&[u8]>, extra: &ExecExtra) -> Obs
         }
         let mut opts = CloneOpts { http: f.http, seed_output: f.seed_output, verify_output: f.verify_output, buffers: f.buffers, verbose: f.verbose, verify_header: extra.verify_header.clone(), retries: if f.http { extra.retries } else { 0 }, timeout: if f.http { extra.timeout } else { None }, ..Default::default() };
         let mut stdin_data = None;
+        let mut blockdev_seeds: Vec<String> = Vec::new();
         for (i, (_, data)) in f.seeds.iter().enumerate() {
             if f.stdin_at == Some(i) {
                 stdin_data = Some(data.to_vec());
             } else {
                 let name = format!("seed{}.bin", i);
                 scen::put_file(&name, data);
+                // a seed may be a partition of a disk: stat says size 0, reading it says otherwise
+                if !data.is_empty() && gen::chance(1, 10) {
+                    sys::with(|s| s.path_mut(&name).fake_blockdev = true);
+                    blockdev_seeds.push(name.clone());
+                    simkit::count("probe:seed-is-a-block-device");
+                }
                 opts.seeds.push(name);
             }
         }
@@ -286,6 +300,12 @@ pub fn execute_with(f: &Fam, presented: Option<&[u8]>, extra: &ExecExtra) -> Obs
                     simkit::count("probe:output-is-also-a-seed");
                 }
                 scen::put_file("out.bin", p);
+                scen::quiet(|| {
+                    let _ = std::fs::remove_file("out.hl");
+                    if extra.hard_link_output {
+                        let _ = std::fs::hard_link("out.bin", "out.hl");
+                    }
+                });
                 if !f.seed_output && !extra.no_force {
                     opts.force_create = true;
                 }
@@ -333,6 +353,9 @@ pub fn execute_with(f: &Fam, presented: Option<&[u8]>, extra: &ExecExtra) -> Obs
                 }
             }
             s.path_mut("out.bin").fake_blockdev = false;
+            for n in &blockdev_seeds {
+                s.path_mut(n).fake_blockdev = false;
+            }
         });
     } else {
         let out = SimFile::drawn(f.prior.clone().unwrap_or_default());
